@@ -1,0 +1,6 @@
+//go:build !verif
+
+package vamana
+
+// No-op without the verif tag.
+func verifYield(string) {}
